@@ -62,10 +62,10 @@ def gen(rng, ctx):
     if rng.random() < 0.08:
         # degenerate interfaces: no primary input (sources are constants / blackbox outputs) or no primary output
         # (all endpoints are blackbox input pins)
-        which = rng.choice(["no_inputs", "no_outputs"])
-        if which == "no_inputs":
+        which = rng.choice(["no_inputs", "no_outputs", "no_ports"])
+        if which in ("no_inputs", "no_ports"):
             cd["nodes"] = [[n, (rng.choice(["0", "1"]) if t == "input" else t), o] for n, t, o in cd["nodes"]]
-        else:
+        if which in ("no_outputs", "no_ports"):
             if not cd["bbs"]:
                 cd = G.add_blackboxes(rng, cd, 1, bbdefs=BBDEFS, p_unconnected=0.0)
             outs_ = [n for n, t, o in cd["nodes"] if o]
@@ -286,5 +286,5 @@ def check(case, ctx):
 
 
 def gates(counters, table, tier):
-    need = ["class:cyclic", "class:dollar_underscore", "class:no_inputs", "class:no_outputs", "behavioral:True", "behavioral:False", "class:bb", "class:escaped", "class:lookalike", "with_constants", "unconnected_pins", "identical_graph_branch", "via_file", "file_stem_differs_from_module_name", "class:hyphenated_long_statements", "file_stem_is_module_name_up_to_dollar"]
+    need = ["class:cyclic", "class:dollar_underscore", "class:no_inputs", "class:no_outputs", "class:no_ports", "behavioral:True", "behavioral:False", "class:bb", "class:escaped", "class:lookalike", "with_constants", "unconnected_pins", "identical_graph_branch", "via_file", "file_stem_differs_from_module_name", "class:hyphenated_long_statements", "file_stem_is_module_name_up_to_dollar"]
     return [f"{k} seen {counters.get(k, 0)} times" for k in need if counters.get(k, 0) < 5]
